@@ -50,6 +50,104 @@ def key_ops(body):
     return out
 
 
+CAS_FAST = r"self\s*\.\s*key\s*\.\s*compare_exchange\s*\(([^()]*)\)"
+
+
+def fast_path_role(lock):
+    """Control-flow role of the fast-path CAS, independent of the concrete syntax: the canonical
+    string `Ok(_)=>return,Err(v)=>v,` means "success: return (lock acquired); failure: the
+    observed value initialises `wait`".  Recognised spellings:
+        let mut wait = match CAS { Ok(_) => return, Err(v) => v };           (arms in any order)
+        let Err(mut wait) = CAS else { return; };
+        let mut wait = if let Err(v) = CAS { v } else { return };
+    Anything else is emitted verbatim (normalised), so that the comparison in Props/C43 fails."""
+    ret = r"return\s*;?"
+    pats = [
+        r"let\s+mut\s+wait\s*=\s*match\s+" + CAS_FAST + r"\s*\{\s*Ok\(\s*_\s*\)\s*=>\s*return\s*,\s*Err\(\s*(\w+)\s*\)\s*=>\s*\2\s*,?\s*\}\s*;",
+        r"let\s+mut\s+wait\s*=\s*match\s+" + CAS_FAST + r"\s*\{\s*Err\(\s*(\w+)\s*\)\s*=>\s*\2\s*,\s*Ok\(\s*_\s*\)\s*=>\s*return\s*,?\s*\}\s*;",
+        r"let\s+Err\(\s*mut\s+wait\s*\)\s*=\s*" + CAS_FAST + r"\s*else\s*\{\s*" + ret + r"\s*\}\s*;",
+        r"let\s+mut\s+wait\s*=\s*if\s+let\s+Err\(\s*(\w+)\s*\)\s*=\s*" + CAS_FAST + r"\s*\{\s*\1\s*\}\s*else\s*\{\s*" + ret + r"\s*\}\s*;",
+    ]
+    first_cas = re.search(CAS_FAST, lock)
+    if not first_cas:
+        raise Fail(f"{REL}: fast-path compare_exchange not found")
+    for p in pats:
+        m = re.search(p, lock)
+        # it must be the FIRST compare_exchange of the function (the fast path)
+        if m and m.start() <= first_cas.start() <= m.end():
+            return "Ok(_)=>return,Err(v)=>v,"
+    m = re.search(r"let[^;]*?" + CAS_FAST + r".*?;", lock, flags=re.S)
+    return "unrecognised:" + (norm(m.group(0))[:120].replace('"', "'") if m else "none")
+
+
+def split_arms(body):
+    """[(pattern, expr)] of a match body (top-level arms)"""
+    arms, i, n = [], 0, len(body)
+    while i < n:
+        j = body.find("=>", i)
+        if j < 0: break
+        pat = body[i:j].strip()
+        k = j + 2
+        while k < n and body[k].isspace(): k += 1
+        depth, e = 0, k
+        if k < n and body[k] == "{":
+            while e < n:
+                if body[e] == "{": depth += 1
+                elif body[e] == "}":
+                    depth -= 1
+                    if depth == 0:
+                        e += 1
+                        break
+                e += 1
+        else:
+            while e < n:
+                if body[e] in "({[": depth += 1
+                elif body[e] in ")}]": depth -= 1
+                elif body[e] == "," and depth == 0: break
+                e += 1
+        arms.append((pat, body[k:e].strip()))
+        i = e
+        while i < n and (body[i].isspace() or body[i] == ","): i += 1
+    return arms
+
+
+def unlock_arms(unlock):
+    """What `sys_unlock` does for each value swapped out of the word, in the canonical order
+    UNLOCKED, SLEEPING, LOCKED, `_` (the order of arms with distinct constant patterns is
+    irrelevant; `_` must be last).  The scrutinee is the result of the swap, either directly
+    (`match self.key.swap(..) {`) or through a `let` (`let x = self.key.swap(..); match x {`)."""
+    m = re.search(r"match\s+self\s*\.\s*key\s*\.\s*swap\s*\([^()]*\)\s*\{", unlock)
+    if not m:
+        l = re.search(r"let\s+(\w+)\s*=\s*self\s*\.\s*key\s*\.\s*swap\s*\([^()]*\)\s*;", unlock)
+        if l:
+            rest = unlock[l.end():]
+            m = re.search(r"match\s+" + l.group(1) + r"\s*\{", rest)
+            if m: unlock = rest
+    if not m:
+        return ["unrecognised: no match on the swapped-out value"]
+    i = m.end() - 1
+    depth, j = 0, i
+    while j < len(unlock):
+        if unlock[j] == "{": depth += 1
+        elif unlock[j] == "}":
+            depth -= 1
+            if depth == 0: break
+        j += 1
+    arms = split_arms(unlock[i + 1:j])
+
+    def role(b):
+        if "bug!" in b: return "bug"
+        if "futex_wake" in b: return "wake"
+        if norm(b) in ("{}", "()", "Ok(())", "{Ok(())}"): return "nop"
+        return norm(b).replace('"', "'")
+    named = [(norm(a), role(b)) for a, b in arms]
+    pats = [a for a, _ in named]
+    order = ["MUTEX_UNLOCKED", "MUTEX_SLEEPING", "MUTEX_LOCKED", "_"]
+    if len(set(pats)) == len(pats) and set(pats) <= set(order) and (("_" not in pats) or pats[-1] == "_"):
+        named.sort(key=lambda x: order.index(x[0]))
+    return [a + "=>" + r for a, r in named]
+
+
 def gen():
     raw = read(REL)
     src = strip_comments(raw)
@@ -76,18 +174,22 @@ def gen():
     lock_ops = [o for o in key_ops(lock[0])]
     unlock_ops = [o for o in key_ops(unlock[0])]
     # fast path: `Ok(_) => return, Err(v) => v` binds `wait`
-    fast = norm(re.search(r"let\s+mut\s+wait\s*=\s*match.*?\{(.*?)\};", lock[0], flags=re.S).group(1)) \
-        if re.search(r"let\s+mut\s+wait\s*=\s*match.*?\{(.*?)\};", lock[0], flags=re.S) else None
-    if fast is None: raise Fail(f"{REL}: fast path `let mut wait = match …` not found")
-    arms = re.findall(r"(Self::MUTEX_\w+|\b_)\s*=>\s*(\{\s*\}|[^,]+,)", unlock[0])
-    arms = [norm(a) + "=>" + ("bug" if "bug!" in b else "wake" if "futex_wake" in b else "nop" if norm(b) == "{}" else norm(b)) for a, b in arms]
+    fast = fast_path_role(lock[0])
+    arms = unlock_arms(unlock[0])
     # shape facts the model relies on
     shape = {
         "swap_before_wait": lock[0].index("swap(") < lock[0].index("futex_wait("),
         "wait_set_sleeping": bool(re.search(r"wait\s*=\s*Self::MUTEX_SLEEPING\s*;", lock[0])),
-        "swap_returns_if_unlocked": bool(re.search(r"swap\(\s*Self::MUTEX_SLEEPING[^)]*\)\s*==\s*Self::MUTEX_UNLOCKED\s*\{\s*return\s*;", lock[0])),
+        "swap_returns_if_unlocked": bool(
+            re.search(r"swap\(\s*Self::MUTEX_SLEEPING[^)]*\)\s*==\s*Self::MUTEX_UNLOCKED\s*\{\s*return\s*;", lock[0])
+            or re.search(r"let\s+(\w+)\s*=\s*self\.key\.swap\(\s*Self::MUTEX_SLEEPING[^)]*\)\s*;\s*"
+                         r"if\s+\1\s*==\s*Self::MUTEX_UNLOCKED\s*\{\s*return\s*;", lock[0])),
         "spin_while_unlocked": bool(re.search(r"while\s+self\.key\.load\([^)]*\)\s*==\s*Self::MUTEX_UNLOCKED", lock[0])),
-        "for_passive_spin": bool(re.search(r"for\s+_\s+in\s+0\s*\.\.\s*PASSIVE_SPIN", lock[0])),
+        # the spin round is executed PASSIVE_SPIN times: a `for` over 0..PASSIVE_SPIN or the
+        # equivalent counted `while`
+        "for_passive_spin": bool(
+            re.search(r"for\s+\w+\s+in\s+0\s*\.\.\s*PASSIVE_SPIN\s*\{", lock[0])
+            or re.search(r"let\s+mut\s+(\w+)\s*(?::\s*\w+)?\s*=\s*0\s*;\s*while\s+\1\s*<\s*PASSIVE_SPIN\s*\{\s*\1\s*\+=\s*1\s*;", lock[0])),
     }
     q = lambda xs: "[" + ", ".join('"' + x.replace('"', "'") + '"' for x in xs) + "]"
     b = lambda v: "true" if v else "false"
